@@ -547,12 +547,11 @@ func c02RunSegment(in c02SegIn) c02SegOut {
 			if err != nil {
 				panic(err)
 			}
-		default:
+		case <-time.After(20 * time.Millisecond):
 			if c := progress(); c != last {
 				last, lastAt = c, time.Now()
 			}
 			if time.Since(lastAt) <= c02Patience() {
-				time.Sleep(50 * time.Microsecond)
 				continue
 			}
 			hung = true
@@ -2558,7 +2557,9 @@ func TestVerifC02(t *testing.T) {
 		for k := 0; k < 3; k++ {
 			jobs <- job{syn: c02GenSyn(r)}
 		}
-		jobs <- job{syn: c02GenBacklog(r)}
+		if i%2 == 0 {
+			jobs <- job{syn: c02GenBacklog(r)}
+		}
 	}
 	close(jobs)
 	wg.Wait()
